@@ -296,6 +296,7 @@ CLI_OVERRIDES = [
     (["--pressuremapcloud", "3"], {"simulation": {"cloud_model": {"id": "pressure_map", "month": 3, "version": 0}}}),
     (["--nocloud"], {"simulation": {"cloud_model": {"id": "no_cloud"}}}),
     (["55", "--monospectrum", "10", "--pressuremapcloud", "Nov"], {"simulation": {"thrown_events": 55, "spectrum": {"id": "monospectrum", "log_nu_energy": 10.0}, "cloud_model": {"id": "pressure_map", "month": 11, "version": 0}}}),
+    (["--powerspectrum", "0", "9", "11"], {"simulation": {"spectrum": {"id": "powerspectrum", "index": 0.0, "lower_bound": 9.0, "upper_bound": 11.0}}}),
     (["1e2", "--powerspectrum", "1", "6", "12"], {"simulation": {"thrown_events": 100, "spectrum": {"id": "powerspectrum", "index": 1.0, "lower_bound": 6.0, "upper_bound": 12.0}}}),
 ]
 
